@@ -782,6 +782,7 @@ func TestVerifC19World(t *testing.T) {
 						kind = ""
 						break
 					}
+					gp.p.Refuse(false)
 					if err := r.Attach(gp.p, c.Chance(0.5)); err != nil && gp.proto != "/other/1.0.0" {
 						// the stream may be refused; the connection still exists
 					}
@@ -804,7 +805,32 @@ func TestVerifC19World(t *testing.T) {
 						kind = ""
 						break
 					}
+					if c.Chance(0.35) {
+						// the peer also refuses every new stream from the node: it stays connected, keeps its own stream
+						// (it can still GRAFT over it) but the node has no outbound stream to it any more
+						kind = "closein_refuse"
+						gp.p.Refuse(true)
+					}
 					gp.p.CloseIn(nd.ID(), true)
+					if kind == "closein_refuse" && router == "gossipsub" && c.Chance(0.7) {
+						// ... and it grafts itself over its own stream (accepted although the node has no stream to it), then maybe leaves
+						vSettle(time.Duration(c.Range(300, 1500)) * time.Millisecond)
+						for _, jt := range topics {
+							if interest(jt) {
+								gp.p.Send(nd.ID(), vSubRPC(true, jt))
+								gp.subbed[jt] = true
+								gp.p.Send(nd.ID(), vGraftRPC(jt))
+							}
+						}
+						kind = "closein_refuse_graft"
+						if c.Chance(0.5) {
+							vSettle(20 * time.Millisecond)
+							n.Disconnect(nd.ID(), gp.p.ID())
+							gp.p.ForgetStreams()
+							gp.attached = false
+							kind = "closein_refuse_graft_detach"
+						}
+					}
 				case 4, 5, 6:
 					if !gp.attached {
 						break
